@@ -427,6 +427,40 @@ func genC06base(t *rapid.T) C06Case {
 		}
 		return C06Case{A: val.JSON(a), B: val.JSON(b), Wrap: wrap}
 	case 1: // arrays whose elements are containers, arbitrary edits at the top
+		if gen.Chance(t, "deepChangeThenEdit", 12) {
+			// a same-position container changed two or three levels down, the
+			// elements next to it edited as well
+			deep := [][2]val.V{
+				{map[string]val.V{"x": map[string]val.V{"y": 1.0}}, map[string]val.V{"x": map[string]val.V{"y": 2.0}}},
+				{[]val.V{[]val.V{1.0}}, []val.V{[]val.V{1.0, 3.0}}},
+				{map[string]val.V{"m": []val.V{1.0, 2.0}}, map[string]val.V{"m": []val.V{1.0}}},
+				{[]val.V{map[string]val.V{"k": []val.V{1.0}}}, []val.V{map[string]val.V{"k": []val.V{2.0}}}},
+				{map[string]val.V{"x": map[string]val.V{"y": map[string]val.V{"z": 1.0}}, "w": 0.0}, map[string]val.V{"x": map[string]val.V{"y": map[string]val.V{"z": 2.0}}, "w": 0.0}},
+			}
+			pr := gen.Pick(t, "deepPair", deep)
+			var a, b []val.V
+			for i := gen.Int(t, "lead", 0, 2); i > 0; i-- {
+				a, b = append(a, float64(i)), append(b, float64(i))
+			}
+			if gen.Chance(t, "editBefore", 40) {
+				a, b = append(a, "old"), append(b, "new")
+			}
+			a, b = append(a, val.Clone(pr[0])), append(b, val.Clone(pr[1]))
+			switch gen.Int(t, "after", 0, 3) {
+			case 0:
+				a, b = append(a, 1.0), append(b, 2.0)
+			case 1:
+				a = append(a, 1.0)
+			case 2:
+				b = append(b, 2.0)
+			default:
+				a, b = append(a, 1.0, 7.0), append(b, 7.0)
+			}
+			if gen.Chance(t, "tail", 50) {
+				a, b = append(a, "t"), append(b, "t")
+			}
+			return C06Case{A: val.JSON(a), B: val.JSON(b), Wrap: wrap}
+		}
 		p := gen.Profile{MaxDepth: 2, MaxArr: 7, ArrayBias: 30}
 		a := gen.Array(t, p, 0).([]val.V)
 		b := val.Clone(a).([]val.V)
